@@ -567,6 +567,7 @@ EnvStep(s, in) ==
                             ELSE Res(TRUE, "", [s EXCEPT !.env.blocked = @ \ {in.who}], NoReq)
     [] in.op = "cctpPause"   -> Res(TRUE, "", [s EXCEPT !.env.cctpPaused = TRUE], NoReq)
     [] in.op = "cctpUnpause" -> Res(TRUE, "", [s EXCEPT !.env.cctpPaused = FALSE], NoReq)
+    [] in.op = "bigback" -> Res(TRUE, "", s, NoReq)      \* big-denom coins go out over IBC again (untracked denom)
     [] OTHER -> Res(FALSE, "env", s, NoReq)
 
 -----------------------------------------------------------------------------
